@@ -698,3 +698,91 @@ RECIPES += [
     ("C14", "break", ["C14-R1"], N, NDIM_TEST, NDIM_MATCH.replace("        case 2:  # user passed in a 2-d array w/ 3 col\n", "        case 3:  # user passed in a 2-d array w/ 3 col\n"),
      "getcoordinates: match form rejects the valid (n, 3) input"),
 ]
+
+# ---------------------------------------------------------------------------------------------------- pass 3: rbcoords (R5)
+LSTSQ = "        R = linalg.lstsq(T, rb[row : row + 3, 3:])[0]\n"
+RHS = "rb[row : row + 3, 3:]"
+
+
+def _bypass(test, fit="linalg.lstsq(T, %s)[0]" % RHS):
+    return f"        if {test}:\n            R = {RHS}\n        else:\n            R = {fit}\n"
+
+
+RECIPES += [
+    # bypasses of the fit under a test that does not bound the off-diagonal terms
+    ("C14", "break", ["C14-R5"], N, LSTSQ, _bypass("np.allclose(np.diag(T), 1.0)"), "rbcoords: fit skipped on a unit diagonal within allclose's tolerance (round-3 seed F)"),
+    ("C14", "break", ["C14-R5"], N, LSTSQ, _bypass("abs(np.trace(T) - 3.0) < 1e-6"), "rbcoords: fit skipped when the trace is 3 within 1e-6"),
+    ("C14", "break", ["C14-R5"], N, LSTSQ, _bypass("np.allclose(np.abs(np.diag(T)), 1.0, rtol=0, atol=1e-12)"), "rbcoords: fit skipped on |diagonal| = 1 within 1e-12 (half turns; tilts up to 1e-6)"),
+    ("C14", "break", ["C14-R5"], N, LSTSQ, _bypass("T[0, 0] > 0.999999 and T[1, 1] > 0.999999 and T[2, 2] > 0.999999"), "rbcoords: fit skipped when every diagonal term exceeds 0.999999"),
+    ("C14", "break", ["C14-R5"], N, LSTSQ, _bypass("np.isclose(T.diagonal().sum(), 3.0)"), "rbcoords: fit skipped on isclose(sum of the diagonal, 3)"),
+    ("C14", "break", ["C14-R5"], N, LSTSQ, _bypass("np.allclose(T, np.eye(3), atol=1e-3)"), "rbcoords: fit skipped when the block is the identity within 1e-3 (bounded, but by 0.1 % of the distance)"),
+    ("C14", "break", ["C14-R5"], N, LSTSQ, _bypass("np.linalg.det(T) > 0.99"), "rbcoords: fit skipped for every proper rotation (determinant test)"),
+    ("C14", "break", ["C14-R5"], N, LSTSQ, _bypass("math.isclose(T[2, 2], 1.0, abs_tol=1e-9)"), "rbcoords: fit skipped when the local z axis is the reference z axis (rotation about z ignored)"),
+    # the fit itself
+    ("C14", "break", ["C14-R5"], N, LSTSQ, f"        R = {RHS}\n", "rbcoords: no fit at all (rotational columns read as they are)"),
+    ("C14", "break", ["C14-R5"], N, "        T = rb[row : row + 3, :3]\n", "        T = rb[:3, :3]\n", "rbcoords: every grid solved with the block of the first grid"),
+    ("C14", "break", ["C14-R5"], N, LSTSQ, f"        R = linalg.lstsq(T.T, {RHS})[0]\n", "rbcoords: fit with the transposed block"),
+    ("C14", "break", ["C14-R5"], N, LSTSQ, f"        R = T @ {RHS}\n", "rbcoords: block applied instead of inverted"),
+    ("C14", "break", ["C14-R5"], N, LSTSQ, f"        R = linalg.solve(T, {RHS})\n", "rbcoords: plain solve fails on the zero rows of a q-set grid"),
+    ("C14", "break", ["C14-R5"], N, "        coords[j] = [deltax, deltay, deltaz]", "        coords[j] = [deltax, deltaz, deltay]", "rbcoords: y and z swapped"),
+    ("C14", "break", ["C14-R5"], N, "        deltax = R[1, 2]\n", "        deltax = R[2, 1]\n", "rbcoords: x read from the entry with the opposite sign"),
+    ("C14", "break", ["C14-R5"], N, "        row = j * 6\n        T = rb", "        row = j * 3\n        T = rb", "rbcoords: blocks of three rows"),
+    ("C14", "break", ["C14-R5"], N, "        coords[j] = [deltax, deltay, deltaz]", "        coords[0] = [deltax, deltay, deltaz]", "rbcoords: every location written to row 0"),
+    ("C14", "break", ["C14-R5"], N, "    n = r // 6\n    coords = np.zeros((n, 3))", "    n = r // 6 - 1\n    coords = np.zeros((n, 3))", "rbcoords: last grid dropped"),
+    # correct variants of the same constructs
+    ("C14", "neutral", [], N, LSTSQ, _bypass("np.array_equal(T, np.eye(3))"), "rbcoords: fit skipped when the block is exactly the identity"),
+    ("C14", "neutral", [], N, LSTSQ, _bypass("(T == np.eye(3)).all()"), "rbcoords: fit skipped on an exact element-wise identity test"),
+    ("C14", "neutral", [], N, LSTSQ, _bypass("np.allclose(T, np.eye(3), rtol=0.0, atol=1e-14)"), "rbcoords: fit skipped when every term of the block is within 1e-14 of the identity"),
+    ("C14", "neutral", [], N, LSTSQ, _bypass("not (T - np.diag(np.diag(T))).any() and (np.diag(T) == 1).all()"), "rbcoords: off-diagonal terms tested to be zero, diagonal to be one"),
+    ("C14", "neutral", [], N, LSTSQ, f"        R = np.linalg.lstsq(T, {RHS}, rcond=None)[0]\n", "rbcoords: numpy's lstsq"),
+    ("C14", "neutral", [], N, LSTSQ, f"        R, *_ = linalg.lstsq(T, {RHS}, check_finite=False)\n", "rbcoords: star unpacking of the lstsq result"),
+    ("C14", "neutral", [], N, LSTSQ, f"        R = linalg.pinv(T) @ {RHS}\n", "rbcoords: pseudo-inverse times right-hand side"),
+    ("C14", "neutral", [], N, "        coords[j] = [deltax, deltay, deltaz]", "        coords[j] = [(deltax + deltax2) / 2, (deltay + deltay2) / 2, (deltaz + deltaz2) / 2]",
+     "rbcoords: location from the mean of the two skew entries (equal for rigid modes)"),
+    ("C14", "neutral", [], N, "        T = rb[row : row + 3, :3]\n" + LSTSQ,
+     "        blk = rb[row : row + 6].reshape(2, 3, 6)[0]\n        T, rhs = np.hsplit(blk, 2) if False else (blk[:, :3], blk[:, 3:])\n        R = linalg.lstsq(T, rhs)[0]\n",
+     "rbcoords: translational rows taken through a reshaped view"),
+]
+
+# ---------------------------------------------------------------------------------------------------- pass 3: own refactorings (each verified
+# in a scratch copy of /repo: same failing set of pyyeti/tests/test_n2p.py, test_nastran.py and the n2p doctests as the clean tree; results of
+# rbgeom / rbgeom_uset / rbmove / rbcoords / getcoordinates / _get_loc_a_basic on random models equal to 5e-14 relative, P8 except azimuths
+# of points on a polar axis)
+RECIPES += [
+    ("C14", "neutral", [], N,
+     '    n = r // 6\n    coords = np.zeros((n, 3))\n    maxerr = 0\n    maxdev = 0\n    haderr = 0\n    for j in range(n):\n        row = j * 6\n        T = rb[row : row + 3, :3]\n        R = linalg.lstsq(T, rb[row : row + 3, 3:])[0]\n        deltax = R[1, 2]\n        deltay = R[2, 0]\n        deltaz = R[0, 1]\n\n        deltax2 = -R[2, 1]\n        deltay2 = -R[0, 2]\n        deltaz2 = -R[1, 0]\n        dev = np.max(\n            np.vstack(\n                (\n                    np.max(np.abs(np.diag(R))),\n                    np.abs(deltax - deltax2),\n                    np.abs(deltay - deltay2),\n                    np.abs(deltaz - deltaz2),\n                )\n            )\n        )\n        coords[j] = [deltax, deltay, deltaz]\n        mc = np.max(np.abs(coords[j]))\n        if mc > np.finfo(float).eps:\n            err = dev / mc * 100.0\n        else:\n            err = dev / np.finfo(float).eps * 100.0\n        maxdev = max([maxdev, dev])\n        maxerr = max([maxerr, err])\n        if verbose > 0 and (dev > mc * 1.0e-6 or math.isnan(dev)):\n            if verbose > 1:\n                print(\n                    "Warning:  deviation from standard pattern, "\n                    f"node #{j + 1} starting at index {row}:"\n                )\n                print(f"  Max deviation = {dev:.3g} units.")\n                print(f"  Max % error   = {err:.3g}%.")\n                print("  Rigid-Body Rotations:")\n                for k in range(3):\n                    print("         {:10.4f} {:10.4f} {:10.4f}".format(*R[k, :3]))\n                print("")\n            haderr = 1\n',
+     '    import functools\n\n    n = r // 6\n    coords = np.zeros((n, 3))\n    eps = np.finfo(float).eps\n\n    def fit_nodes():\n        """yield (first row, 3x3 skew matrix) of every node"""\n        for first in range(0, r, 6):\n            top = rb[first : first + 3]\n            yield first, linalg.lstsq(top[:, :3], top[:, 3:])[0]\n\n    devs, errs = [], []\n    haderr = 0\n    for j, (row, R) in enumerate(fit_nodes()):\n        upper = np.array([R[1, 2], R[2, 0], R[0, 1]])\n        lower = -np.array([R[2, 1], R[0, 2], R[1, 0]])\n        dev = np.max(np.concatenate((np.abs(np.diag(R)), np.abs(upper - lower))))\n        coords[j] = upper\n        mc = np.max(np.abs(coords[j]))\n        err = dev / (mc if mc > eps else eps) * 100.0\n        devs.append(dev)\n        errs.append(err)\n        if verbose > 0 and (dev > mc * 1.0e-6 or math.isnan(dev)):\n            if verbose > 1:\n                print(\n                    "Warning:  deviation from standard pattern, "\n                    f"node #{j + 1} starting at index {row}:"\n                )\n                print(f"  Max deviation = {dev:.3g} units.")\n                print(f"  Max % error   = {err:.3g}%.")\n                print("  Rigid-Body Rotations:")\n                for k in range(3):\n                    print("         {:10.4f} {:10.4f} {:10.4f}".format(*R[k, :3]))\n                print("")\n            haderr = 1\n    maxdev = functools.reduce(lambda a, b: max(a, b), devs, 0)\n    maxerr = functools.reduce(lambda a, b: max(a, b), errs, 0)\n',
+     'rbcoords: nodes fitted by a generator, deviations collected in lists and reduced at the end (own refactoring)'),
+    ("C14", "neutral", [], N,
+     '    rbmodes = np.zeros((r * 6, 6))\n    rbmodes[1::6, 3] = -grids[:, 2]\n    rbmodes[2::6, 3] = grids[:, 1]\n    rbmodes[::6, 4] = grids[:, 2]\n    rbmodes[2::6, 4] = -grids[:, 0]\n    rbmodes[::6, 5] = -grids[:, 1]\n    rbmodes[1::6, 5] = grids[:, 0]\n    for i in range(6):\n        rbmodes[i::6, i] = 1.0\n    return rbmodes\n',
+     '    rbmodes = np.zeros((r * 6, 6))\n    blocks = rbmodes.reshape(r, 6, 6)  # a view: one 6x6 block per grid\n    x, y, z = grids[:, 0], grids[:, 1], grids[:, 2]\n    zero = np.zeros(r)\n    # the upper right 3x3 of every block is -[p x], stacked along the first axis\n    blocks[:, :3, 3:] = np.stack(\n        [\n            np.stack([zero, z, -y], -1),\n            np.stack([-z, zero, x], -1),\n            np.stack([y, -x, zero], -1),\n        ],\n        1,\n    )\n    k = np.arange(6)\n    blocks[:, k, k] = 1.0\n    return rbmodes\n',
+     'rbgeom: the skew part stored through a 3-d view of the result, stacked with np.stack (own refactoring)'),
+    ("C14", "neutral", [], N,
+     '    return rb @ rbgeom(oldref, newref)\n',
+     '    return np.einsum("ij,jk->ik", rb, rbgeom(oldref, newref))\n',
+     'rbmove: product written as einsum (own refactoring)'),
+    ("C14", "neutral", [], N,
+     '    # treat as rectangular here; fix cylindrical & spherical below\n    rb2 = np.zeros((np.shape(rb)))\n    for j in range(ngrids):\n        i = 6 * j\n        t = uset.iloc[i + 3 : i + 6, 1:].values.T\n        rb2[i : i + 3] = t @ rb[i : i + 3]\n        rb2[i + 3 : i + 6] = t @ rb[i + 3 : i + 6]\n\n    # fix up cylindrical:\n    grid_loc = np.arange(0, uset.shape[0], 6)\n    cyl = (uset.loc[(slice(None), 2), "y"] == 2).values\n    if cyl.any():\n        grid_loc_cyl = grid_loc[cyl]\n        for i in grid_loc_cyl:\n            t = uset.iloc[i + 3 : i + 6, 1:].values.T\n            loc = uset.iloc[i, 1:]\n            loc2 = t @ (loc - uset.iloc[i + 2, 1:]).values\n            if abs(loc2[1]) + abs(loc2[0]) > 1e-8:\n                th = math.atan2(loc2[1], loc2[0])\n                c = math.cos(th)\n                s = math.sin(th)\n                t = np.array([[c, s], [-s, c]])\n                rb2[i : i + 2] = t @ rb2[i : i + 2]\n                rb2[i + 3 : i + 5] = t @ rb2[i + 3 : i + 5]\n\n    # fix up spherical:\n    sph = (uset.loc[(slice(None), 2), "y"] == 3).values\n    if sph.any():\n        grid_loc_sph = grid_loc[sph]\n        for i in grid_loc_sph:\n            t = uset.iloc[i + 3 : i + 6, 1:].values.T\n            loc = uset.iloc[i, 1:]\n            loc2 = t @ (loc - uset.iloc[i + 2, 1:]).values\n            if abs(loc2[1]) + abs(loc2[0]) > 1e-8:\n                phi = math.atan2(loc2[1], loc2[0])\n                c = math.cos(phi)\n                s = math.sin(phi)\n                t = np.array([[c, s], [-s, c]])\n                rb2[i : i + 2] = t @ rb2[i : i + 2]\n                rb2[i + 3 : i + 5] = t @ rb2[i + 3 : i + 5]\n                loc2[:2] = t @ loc2[:2]\n            if abs(loc2[2]) + abs(loc2[0]) > 1e-8:\n                th = math.atan2(loc2[0], loc2[2])\n            else:\n                th = 0\n            c = math.cos(th)\n            s = math.sin(th)\n            t = np.array([[s, 0, c], [c, 0, -s], [0, 1, 0]])\n            rb2[i : i + 3] = t @ rb2[i : i + 3]\n            rb2[i + 3 : i + 6] = t @ rb2[i + 3 : i + 6]\n\n',
+     '    # local <- basic for every grid at once: T3[g] is the 3x3 of grid g\n    T3 = uset.iloc[:, 1:].values.reshape(ngrids, 6, 3)[:, 3:, :]\n    rb2 = np.einsum("gji,ghjk->ghik", T3, rb.reshape(ngrids, 2, 3, 6)).reshape(\n        rb.shape\n    )\n\n    def local_position(i):\n        t = uset.iloc[i + 3 : i + 6, 1:].values.T\n        return t @ (uset.iloc[i, 1:] - uset.iloc[i + 2, 1:]).values\n\n    def about_z(p):\n        """rotation about local z that points x at the grid"""\n        if abs(p[1]) + abs(p[0]) > 1e-8:\n            ang = math.atan2(p[1], p[0])\n            c, s = math.cos(ang), math.sin(ang)\n            return np.array([[c, s, 0.0], [-s, c, 0.0], [0.0, 0.0, 1.0]])\n        return np.eye(3)\n\n    def sph_frame(p):\n        fz = about_z(p)\n        q = fz @ p\n        th = math.atan2(q[0], q[2]) if abs(q[2]) + abs(q[0]) > 1e-8 else 0\n        c, s = math.cos(th), math.sin(th)\n        return np.array([[s, 0, c], [c, 0, -s], [0, 1, 0]]) @ fz\n\n    frame_of = {2: about_z, 3: sph_frame}\n    cstype = uset.loc[(slice(None), 2), "y"].values\n    for i, ct in zip(range(0, uset.shape[0], 6), cstype):\n        make = frame_of.get(int(ct))\n        if make is not None:\n            frame = make(local_position(i))\n            rb2[i : i + 3] = frame @ rb2[i : i + 3]\n            rb2[i + 3 : i + 6] = frame @ rb2[i + 3 : i + 6]\n\n',
+     'rbgeom_uset: rectangular step as one batched einsum, local frames from a dispatch table of closures (own refactoring)'),
+    ("C14", "neutral", [], N,
+     '    Tg = coordinfo[2:]\n    coordloc = coordinfo[1]\n    if coordinfo[0, 1] == 1:\n        location = coordloc + Tg @ a\n    else:\n        a2r = math.pi / 180.0\n        if coordinfo[0, 1] == 2:  # cylindrical\n            vec = np.array(\n                [a[0] * math.cos(a[1] * a2r), a[0] * math.sin(a[1] * a2r), a[2]]\n            )\n        else:  # spherical\n            s = math.sin(a[1] * a2r)\n            vec = a[0] * np.array(\n                [\n                    s * math.cos(a[2] * a2r),\n                    s * math.sin(a[2] * a2r),\n                    math.cos(a[1] * a2r),\n                ]\n            )\n        location = coordloc + Tg @ vec\n    return location\n',
+     '    (_, ctype, _), coordloc, *axes = coordinfo\n    if ctype == 1:\n        vec = a\n    elif ctype == 2:  # cylindrical\n        th = math.radians(a[1])\n        vec = (a[0] * math.cos(th), a[0] * math.sin(th), a[2])\n    else:  # spherical\n        th, ph = math.radians(a[1]), math.radians(a[2])\n        vec = a[0] * np.array(\n            [math.sin(th) * math.cos(ph), math.sin(th) * math.sin(ph), math.cos(th)]\n        )\n    # sum of the columns of the transform weighted by the local components\n    return coordloc + np.einsum("ij,j->i", np.array(axes), np.asarray(vec))\n',
+     '_get_loc_a_basic: record unpacked by rows, math.radians, transform applied with einsum (own refactoring)'),
+    ("C14", "neutral", [], N,
+     '    # fix up cylindrical:\n    grid_loc = np.arange(0, uset.shape[0], 6)\n    cyl = (uset.loc[(slice(None), 2), "y"] == 2).values\n    if cyl.any():\n        grid_loc_cyl = grid_loc[cyl]\n        for i in grid_loc_cyl:\n            t = uset.iloc[i + 3 : i + 6, 1:].values.T\n            loc = uset.iloc[i, 1:]\n            loc2 = t @ (loc - uset.iloc[i + 2, 1:]).values\n            if abs(loc2[1]) + abs(loc2[0]) > 1e-8:\n                th = math.atan2(loc2[1], loc2[0])\n                c = math.cos(th)\n                s = math.sin(th)\n                t = np.array([[c, s], [-s, c]])\n                rb2[i : i + 2] = t @ rb2[i : i + 2]\n                rb2[i + 3 : i + 5] = t @ rb2[i + 3 : i + 5]\n\n    # fix up spherical:\n    sph = (uset.loc[(slice(None), 2), "y"] == 3).values\n    if sph.any():\n        grid_loc_sph = grid_loc[sph]\n        for i in grid_loc_sph:\n            t = uset.iloc[i + 3 : i + 6, 1:].values.T\n            loc = uset.iloc[i, 1:]\n            loc2 = t @ (loc - uset.iloc[i + 2, 1:]).values\n            if abs(loc2[1]) + abs(loc2[0]) > 1e-8:\n                phi = math.atan2(loc2[1], loc2[0])\n                c = math.cos(phi)\n                s = math.sin(phi)\n                t = np.array([[c, s], [-s, c]])\n                rb2[i : i + 2] = t @ rb2[i : i + 2]\n                rb2[i + 3 : i + 5] = t @ rb2[i + 3 : i + 5]\n                loc2[:2] = t @ loc2[:2]\n            if abs(loc2[2]) + abs(loc2[0]) > 1e-8:\n                th = math.atan2(loc2[0], loc2[2])\n            else:\n                th = 0\n            c = math.cos(th)\n            s = math.sin(th)\n            t = np.array([[s, 0, c], [c, 0, -s], [0, 1, 0]])\n            rb2[i : i + 3] = t @ rb2[i : i + 3]\n            rb2[i + 3 : i + 6] = t @ rb2[i + 3 : i + 6]\n\n',
+     '    class _Grid:\n        # one grid of the selected table: `first` is its first row\n\n        def __init__(self, first):\n            self.first = first\n\n        @property\n        def to_local(self):\n            return uset.iloc[self.first + 3 : self.first + 6, 1:].values.T\n\n        def position(self):\n            origin = uset.iloc[self.first + 2, 1:]\n            return self.to_local @ (uset.iloc[self.first, 1:] - origin).values\n\n        def rotate(self, t):\n            n = t.shape[0]\n            for base in (self.first, self.first + 3):\n                rb2[base : base + n] = t @ rb2[base : base + n]\n\n        @staticmethod\n        def planar(a, b):\n            # 2x2 rotation by atan2(b, a), or None on the axis\n            if abs(b) + abs(a) > 1e-8:\n                ang = math.atan2(b, a)\n                c, s = math.cos(ang), math.sin(ang)\n                return np.array([[c, s], [-s, c]])\n            return None\n\n    cstype = uset.loc[(slice(None), 2), "y"].values\n    todo = [(_Grid(6 * k), int(ct)) for k, ct in enumerate(cstype) if ct in (2, 3)]\n    while todo:\n        grid, ct = todo.pop()\n        loc2 = grid.position()\n        t = _Grid.planar(loc2[0], loc2[1])\n        if t is not None:\n            grid.rotate(t)\n            loc2[:2] = t @ loc2[:2]\n        if ct == 3:\n            t = grid.planar(loc2[2], loc2[0])\n            c, s = (1.0, 0.0) if t is None else (t[0, 0], t[0, 1])\n            grid.rotate(np.array([[s, 0, c], [c, 0, -s], [0, 1, 0]]))\n\n',
+     'rbgeom_uset: one small class per grid (property, static method), work list consumed with pop() (own refactoring)'),
+    ("C14", "neutral", [], N,
+     '        R = linalg.lstsq(T, rb[row : row + 3, 3:])[0]\n',
+     '        rhs = rb[row : row + 3, 3:]\n        try:\n            R = np.linalg.solve(T, rhs)\n        except np.linalg.LinAlgError:\n            R = linalg.lstsq(T, rhs)[0]\n',
+     'rbcoords: direct solve, least squares as the fall-back when the block is singular (own refactoring)'),
+    ("C14", "neutral", [], N,
+     '    result = []\n    T = None\n    for igid in gid:\n        if isgrid:\n            xyz_basic = uset.loc[(igid, 1), "x":"z"].values\n        else:  # is coord\n            xyz_basic = igid\n        if np.size(csys) == 1 and csys == 0:\n            result.append(xyz_basic)\n        else:\n            if T is None:\n                # get input "coordinfo" [ cid type 0; location(1x3); T(3x3) ]:\n                if coordref is None:\n                    coordref = {}\n                coordinfo = mkusetcoordinfo(csys, uset, coordref)\n                xyz_coord = coordinfo[1]\n                T = coordinfo[2:]  # transform to basic for coordinate system\n            g = T.T @ (xyz_basic - xyz_coord)\n            ctype = coordinfo[0, 1].astype(np.int64)\n            if ctype == 1:\n                result.append(g)\n            elif ctype == 2:\n                R = math.hypot(g[0], g[1])\n                theta = math.atan2(g[1], g[0])\n                result.append(np.array([R, theta * 180 / math.pi, g[2]]))\n            else:\n                R = linalg.norm(g)\n                phi = math.atan2(g[1], g[0])\n                s = math.sin(phi)\n                c = math.cos(phi)\n                if abs(s) > abs(c):\n                    theta = math.atan2(g[1] / s, g[2])\n                else:\n                    theta = math.atan2(g[0] / c, g[2])\n                result.append(np.array([R, theta * 180 / math.pi, phi * 180 / math.pi]))\n\n    if gid.shape[0] == 1:\n        return result[0]\n    return np.array(result)\n\n\n',
+     '    pts = np.array(\n        [uset.loc[(igid, 1), "x":"z"].values if isgrid else igid for igid in gid]\n    )\n    if pts.shape[0] == 0:\n        return np.array([])\n    if np.size(csys) == 1 and csys == 0:\n        out = pts\n    else:\n        # get input "coordinfo" [ cid type 0; location(1x3); T(3x3) ]:\n        if coordref is None:\n            coordref = {}\n        coordinfo = mkusetcoordinfo(csys, uset, coordref)\n        G = (pts - coordinfo[1]) @ coordinfo[2:]  # rows are T.T @ (xyz - origin)\n        ctype = int(coordinfo[0, 1])\n        if ctype == 1:\n            out = G\n        else:\n            phi = np.arctan2(G[:, 1], G[:, 0])\n            if ctype == 2:\n                out = np.column_stack((np.hypot(G[:, 0], G[:, 1]), phi * 180 / math.pi, G[:, 2]))\n            else:\n                s, c = np.sin(phi), np.cos(phi)\n                by_sin = np.abs(s) > np.abs(c)\n                rho = np.where(by_sin, G[:, 1], G[:, 0]) / np.where(by_sin, s, c)\n                out = np.column_stack(\n                    (\n                        np.sqrt(np.sum(G * G, axis=1)),\n                        np.arctan2(rho, G[:, 2]) * 180 / math.pi,\n                        phi * 180 / math.pi,\n                    )\n                )\n    if gid.shape[0] == 1:\n        return out[0]\n    return out\n\n\n',
+     'getcoordinates: all locations converted at once, divisor selected with np.where (own refactoring)'),
+    ("C14", "neutral", [], N,
+     '    rbmodes = np.zeros((r * 6, 6))\n    rbmodes[1::6, 3] = -grids[:, 2]\n    rbmodes[2::6, 3] = grids[:, 1]\n    rbmodes[::6, 4] = grids[:, 2]\n    rbmodes[2::6, 4] = -grids[:, 0]\n    rbmodes[::6, 5] = -grids[:, 1]\n    rbmodes[1::6, 5] = grids[:, 0]\n    for i in range(6):\n        rbmodes[i::6, i] = 1.0\n    return rbmodes\n',
+     '    rbmodes = np.tile(np.eye(6), (r, 1))\n    skew = np.zeros((r, 3, 3))\n    for (i, j), (col, sign) in {\n        (0, 1): (2, 1), (0, 2): (1, -1), (1, 0): (2, -1),\n        (1, 2): (0, 1), (2, 0): (1, 1), (2, 1): (0, -1),\n    }.items():\n        skew[:, i, j] = grids[:, col] if sign > 0 else -grids[:, col]\n    rbmodes.reshape(r, 6, 6)[:, :3, 3:] = skew\n    return rbmodes\n',
+     'rbgeom: tiled identity, skew part filled from a table of (row, column) -> (coordinate, sign) (own refactoring)'),
+]
